@@ -14,12 +14,23 @@ import (
 
 func main() {
 	r := evid.New("C06", "exploration")
-	r.Rule("seeded scenarios: a chain of 60-300 generated blocks (1-9 transactions, with and without witness data, BIP141 commitment when any), 1-4 peers honest for everything except getdata(block); the real client syncs, then GetBlock is called 8-20 times per scenario: height 1, tip, random blocks, sequentially and 2-4 concurrently (different and same hashes), repeated (cache path, also with a 2.5 kB cache that evicts), with and without Encoding(BaseEncoding), with default and explicit NumRetries, for a hash without header. Answers are rewritten from a labelled vocabulary (honest, twice, other(+mutated) block next to the honest one, full witness block for a non-witness request | other block, mutated other block, nothing, notfound | raw garbage, truncated block message | requested header with: output value/script changed, tx added/removed/duplicated(CVE-2012-2459)/reordered, all witnesses stripped, all but coinbase stripped, witness bit flipped, coinbase nonce changed, commitment altered, non-witness re-encoding, witness added, header only | invalid+honest from one peer in both orders). 'director' scenarios answer the successive requests of a call from a per-call stream whichever peer the client picks (ban kinds are assigned round-robin over scenarios so the quick tier covers all of them); 'per-peer' scenarios (every 4th) give each peer a fixed personality and use as many concurrent calls as peers. Every message is labelled from the BYTES sent (decoded as the client decodes them) by byte comparison with the generator's block; btcd's CheckBlockSanity/ValidateWitnessCommitment are run on the harness side only to cross-check labels. ORACLE: (1) a returned block's witness serialisation equals the generator's block for that hash (non-witness serialisation for BaseEncoding calls) and something valid had been sent for it; (2) every BlockCache entry likewise under its inv key; (3) from the ban store reopened after Stop: a peer whose answer to an active call carried the requested header but not the block is banned with reason InvalidBlock, a peer that never sent such a block carries no InvalidBlock ban, IsBanned agrees with the store, banned addresses end with no open connection and never complete a new handshake; (4) every job that was handed the true block by an untainted peer succeeded, and a sequential failing call used all its tries. distinct = scenario shape + per-call (answers seen x block has witness x encoding x #peers x mode x concurrency x outcome); non-trivial = at least one call returned")
+	r.Rule("seeded scenarios: a chain of 60-300 generated blocks (1-9 transactions, with and without witness data, BIP141 commitment when any), 1-4 peers honest for everything except getdata(block); the real client syncs, then GetBlock is called 8-20 times per scenario: height 1, tip, random blocks, sequentially and 2-4 concurrently (different and same hashes), repeated (cache path, also with a 2.5 kB cache that evicts), with and without Encoding(BaseEncoding), with default and explicit NumRetries, for a hash without header. Answers are rewritten from a labelled vocabulary (honest, twice, other(+mutated) block next to the honest one, full witness block for a non-witness request | other block, mutated other block, nothing, notfound | raw garbage, truncated block message | requested header with: output value/script changed, tx added/removed/duplicated(CVE-2012-2459)/reordered, all witnesses stripped, all but coinbase stripped, witness bit flipped, coinbase nonce changed, commitment altered, non-witness re-encoding, witness added, header only | invalid+honest from one peer in both orders). 'director' scenarios answer the successive requests of a call from a per-call stream whichever peer the client picks (ban kinds are assigned round-robin over scenarios so the quick tier covers all of them); 'per-peer' scenarios (every 4th) give each peer a fixed personality and use as many concurrent calls as peers. Every message is labelled from the BYTES sent (decoded as the client decodes them) by byte comparison with the generator's block; btcd's CheckBlockSanity/ValidateWitnessCommitment are run on the harness side only to cross-check labels. ORACLE: (1) a returned block's witness serialisation equals the generator's block for that hash (non-witness serialisation for BaseEncoding calls) and something valid had been sent for it; (2) every BlockCache entry likewise under its inv key; (3) from the ban store reopened after Stop: a peer whose answer to an active call carried the requested header but not the block is banned with reason InvalidBlock, a peer that never sent such a block carries no InvalidBlock ban, IsBanned agrees with the store, banned addresses end with no open connection and never complete a new handshake; (4) every job that was handed the true block by an untainted peer succeeded, and a sequential failing call used all its tries. BAN-HISTORY family (scenarios 0..5 quick / 0..399 thorough; 0 and 1 fixed): 1-3 offending hosts (some with a second simulated peer on another port of the same IP) and 1-2 honest hosts; a seeded sequence of steps: offence round (the named hosts answer their next block request with an invalid block of a kind of the vocabulary, while connected+1..2 concurrent GetBlock calls for different blocks hand every peer a request; repeated until the host was asked), UnbanPeer(host, permanent false|true, same or other port), restart of the client on the same data directory, honest rounds (also repeating an earlier hash). A reference model of the ban state per host (banned once a call returned during which the host sent an invalid block with the requested header; not banned once UnbanPeer returned) is compared at every quiescent checkpoint (after each offence round, unban, restart, at the end, and from the store reopened after Stop) with the ban store read next to the client and with IsBanned for every port of the host: (3') a host the model says is banned has an InvalidBlock record whatever its earlier history (ban, unban, restart), IsBanned agrees with the store, a banned host ends with no open connection and completes no handshake until UnbanPeer is called, a host that never offended carries no InvalidBlock ban; rules (1), (2) and 'a call handed the true block by a host that never misbehaved succeeds' apply to every call. distinct = scenario shape + per-call (answers seen x block has witness x encoding x #peers x mode x concurrency x outcome); non-trivial = at least one call returned")
 	r.Assume("client knobs (exported variables) are shortened as in l2.init; the query worker timeouts (2 s doubling) are real; the simulated peers implement the protocol subset of DESIGN appendix B; the generator's blocks are the ground truth (cross-checked against btcd's validators on the harness side)")
 	r.Assume("a non-witness (BaseEncoding) request answered with the honest witness-stripped encoding of a block that HAS witness data is labelled 'ambig': the client bans such a peer (the commitment cannot be validated) and the property text does not decide whether it should; neither ban nor no-ban nor success is asserted there, only counted")
 	r.Assume("an invalid and a valid block sent back-to-back by the same peer reach the query worker in either order (one goroutine per message): there the ban is not required and a later failure is not counted against the client")
 	r.Assume("the client hands received messages to its query workers asynchronously (one goroutine per message): a block sent as a bystander to one request can be consumed as the answer to the NEXT request to that peer. Bystander blocks are therefore drawn from blocks no call ever requests; and a failing call may have spent one try on a worker whose peer the client had just disconnected, so the retry-budget rule allows one unobserved try per peer the client had reason to drop")
 	r.Assume("simulated peers answer inline (well inside the 2 s worker timeout); delayed answers, which a client may legitimately never look at, are not generated")
+	r.Assume("ban-history scenarios: a ban is due once the call that received the invalid block has returned (the ban is written by the response handler before the query can go on); UnbanPeer's own obligations (record removed, host connected again) are preconditions of the next step, not asserted")
 	n := r.Pick(16, 2000)
-	l2.Main(r, n, 300*time.Second, r.Pick(40, 300), c06.Scenario)
+	// The ban-history family comes first in the case list: scenarios
+	// 0..nBan-1 (0 and 1 are fixed, seed-independent), then the n scenarios
+	// described first.
+	nBan := r.Pick(6, 400)
+	l2.Main(r, nBan+n, 300*time.Second, r.Pick(40, 300), func(seed int64, k int, res *l2.Result) {
+		if k < nBan {
+			c06.BanHistScenario(seed, k, res)
+			return
+		}
+		c06.Scenario(seed, k-nBan, res)
+	})
 }
